@@ -213,6 +213,8 @@ namespace va
     {
         virtual ~IDiffusion() {}
         virtual std::vector<double> erode(const std::vector<double>& z, double dt) = 0;
+        // next step on the array (reference) that the previous erode() call returned
+        virtual std::vector<double> erode_last(double dt) = 0;
         virtual void set_k_scalar(double k) = 0;
         virtual void set_k_array(const std::vector<double>& k) = 0;
         virtual std::vector<double> k_coef() = 0;
